@@ -21,6 +21,21 @@ def replay(args, outdir):
             return dict(reproduced=False)
         return dict(reproduced=True, signature='L1_sliding_unbounded:%s:%s' % (a['which'], clause),
                     what='%s.coordinate_to_sliding_bin_locations(p=%d,b=%d,s=%d) -> windows %r, expected %r' % (a['which'], p, b, s, got, exp))
+    if lemma == 'LF_float_cut_bounded':
+        import math, re
+        kind = a.get('kind')
+        if 'A' in a:
+            av, bv = a['A'], a['B']
+        else:
+            nums = [int(x[2:], 2) for x in re.findall(r'#b[01]+', a.get('model', ''))]
+            if len(nums) != 2:
+                return dict(reproduced=False, note='no model to replay')
+            av, bv = nums
+        got = {'floor': int(math.floor(av / bv)), 'trunc': int(av / bv), 'ceil': int(math.ceil(av / bv))}[kind]
+        want = {'floor': av // bv, 'trunc': av // bv, 'ceil': -((-av) // bv)}[kind]
+        if got == want:
+            return dict(reproduced=False, note='CPython floats agree with integer arithmetic at A=%d B=%d' % (av, bv))
+        return dict(reproduced=True, signature='LF_float_cut_bounded:%s' % kind, what='float %s(%d/%d) = %d but integer result %d' % (kind, av, bv, got, want))
     if lemma.startswith('L2_bins_list'):
         mod = CT if lemma.endswith('ct') else UB
         clause = S.check_bins_list(mod.coordinate_to_bins, a['p'], a['b'], a['s'])
